@@ -196,6 +196,20 @@ CLAIMED.update({
          'striped file loading, the distributed k-medoids sweep.',
     ref='DESIGN.md sections 6 and 8 C14'),
 })
+CLAIMED.update({
+ 'C15': dict(
+    technique='symbolic execution of ra.save/ra.load, load_as_concatenated, sound_trajectory and the striped loaders over in-memory I/O stubs (symbolic cell values, unbounded frame counts for the length formula); z3 LIA/LRA validity; real PyTables replays',
+    text='Decidable core: the unmodified save/load code runs against an in-memory store with symbolic cell values and z3 proves values, row '
+         'order (zero-padded key names across the 9->10 digit boundary; 99->100 in the thorough tier), row lengths and element type come back, '
+         'and that stride / key subsets equal slicing the full load; sound_trajectory equals ceil(n/stride) for UNBOUNDED frame counts; the '
+         'parallel loader returns the concatenation in file order of the individually loaded (strided, frame-selected, atom-selected) '
+         'trajectories and their lengths for both task orders, and rejects a wrong lengths hint; the striped npy/h5 loaders return strided data '
+         'with matching lengths.',
+    note='Trusted: shim, z3, the three I/O stubs (listing order checked against real PyTables on every run; counterexamples are replayed with '
+         'real PyTables / np.save files). NOT decided: HDF5/zlib byte fidelity, dtype preservation by PyTables, mdtraj parsers and selection '
+         'language, real multiprocessing scheduling and shared memory.',
+    ref='DESIGN.md section 8 C15'),
+})
 PENDING = 'check not built yet in this session (work in progress; see DESIGN.md section 8 for the plan)'
 NA = {}
 
